@@ -108,6 +108,8 @@ func TestTrace(t *testing.T) {
 		traceBackup(t, o)
 	case "updater":
 		traceUpdater(t, o)
+	case "concstore":
+		traceConcStore(t, o)
 	default:
 		t.Fatalf("unknown family %q", o.family)
 	}
